@@ -36,7 +36,9 @@ FLOORS = {'schedules': 200, 'evaluate_outcomes': 2000, 'snapshots': 50,
           'growth_windows': 24, 'dependent_order_pairs': 50,
           'derived_models': 20, 'own_namespace_evaluators': 20,
           'evaluations_after_reassignment': 500, 'long_chain_outcomes': 48,
-          'failing_evaluations_before_reassignment': 30}
+          'failing_evaluations_before_reassignment': 30,
+          'numeric_state_outcomes': 100,
+          'models_with_equal_constants_of_different_type': 20}
 ANCHOR_FUNCS = {
     'xlcalculator/evaluator.py': ['Evaluator.evaluate',
                                   'EvaluatorContext.eval_cell'],
@@ -218,6 +220,27 @@ def run(ctx):
             fast = ('bin', '+', fast, gen.R(fk, home))
         m.cells[fail_key] = ('f', ('bin', '+', fast, ('call', 'NOSUCHFUNCTION',
                                                      [gen.lit(1)])))
+        # constants that are EQUAL in Python but of different spreadsheet type
+        # (1, 1.0, TRUE / 0, 0.0, FALSE), read by type-sensitive formulas
+        if rng.random() < 0.5:
+            kinds_ = [1, True, 1.0, 0, False, 0.0]
+            rng.shuffle(kinds_)
+            for j, v_ in enumerate(kinds_):
+                key = (home, 14, j + 1)
+                m.cells[key] = v_
+                m.order.append(key)
+                m.inputs_typed = getattr(m, 'inputs_typed', []) + [key]
+                m.deps[key] = set()
+                m.depth[key] = 0
+            for j in range(6):
+                key = (home, 15, j + 1)
+                m.cells[key] = ('f', ('call', 'ISNUMBER', [
+                    ('ref', None, 14, j + 1, False, False)]))
+                m.order.append(key)
+                m.formulas.append(key)
+                m.deps[key] = {(home, 14, j + 1)}
+                m.depth[key] = 1
+            ctx.event('models_with_equal_constants_of_different_type')
         wb = m.workbook()
         try:
             want = {k: ref.to_norm(wb.value(k)) for k in m.order}
@@ -391,6 +414,42 @@ def run(ctx):
             ctx.sample({'cells': build.dict_of(wb),
                         'schedules': len(perms), 'evaluators': n_ev,
                         'values': {build.addr(k): want[k] for k in formulas}})
+
+    # ---- process-wide state of the numeric libraries: what a cell evaluates to
+    # does not depend on whether some other cell (a power, a trigonometric
+    # function ...) was evaluated before it in this process -------------------
+    if ctx.shard in (4, 5, 6):
+        cells_ = {'A1': 1e307, 'P1': '=A1^0+2^10', 'P2': '=POWER(2,0.5)',
+                  'Q1': '=COS(0)*1E-300*1E-300', 'Q2': '=COS(0)*A1*100',
+                  'Q3': '=DEGREES(A1)', 'Q4': '=SIN(1E-310)',
+                  'Q5': '=EXP(-745.2)+LOG10(10)', 'Q6': '=RADIANS(1E-307)',
+                  'Q7': '=PV(0,10,-100)', 'Q8': '=SQRT(1E-320)*SIGN(-2)'}
+        targets = [a for a in cells_ if a != 'A1']
+        seen_ = {}
+        for rnd in range(4):
+            order = list(targets)
+            rng.shuffle(order)
+            if rnd == 0:
+                # the powers last in the first round
+                order = [a for a in order if a[0] == 'Q'] + \
+                    [a for a in order if a[0] == 'P']
+            ev_ = Evaluator(subject.compile_dict(cells_))
+            for a in order:
+                got = subject.outcome_of(lambda: ev_.evaluate('Sheet1!' + a))
+                ctx.event('evaluate_outcomes')
+                ctx.event('numeric_state_outcomes')
+                kind = got if got[0] == 'value' else (
+                    'raised', got[1].split(':')[-1][:60])
+                seen_.setdefault(a, []).append((rnd, order.index(a), kind))
+        for a, obs in seen_.items():
+            ctx.case(('numeric-state', a))
+            if len({str(k) for _, _, k in obs}) > 1:
+                ctx.fail(f'{cells_[a]} depends on what was evaluated before in '
+                         f'this process: (round, position, outcome) = {obs}',
+                         {'formula': cells_[a], 'cells': cells_,
+                          'observations': [str(o) for o in obs]},
+                         monitor='schedule-independence',
+                         group='numeric-state:' + a)
 
     # ---- long chains: the outcome of a cell (its value, or the failure once the
     # interpreter's stack is exhausted) is the same whatever was evaluated
